@@ -7,11 +7,18 @@ def run(ver):
     binp = core.cargo_build("vh")
     for rich, mt in (("FALSE", {"quick": "2", "thorough": "3"}[ver.tier]), ("TRUE", {"quick": "1", "thorough": "2"}[ver.tier])):
         tag = f"mc_c04_rich{rich}_{mt}"
-        res = core.run_tlc("MC_C04", "MC_C04.cfg", wd, tag=tag, consts={"Rich": rich, "MaxTok": mt}, timeout=3400)
+        res = core.run_tlc("MC_C04", "MC_C04.cfg", wd, tag=tag, consts={"Rich": rich, "MaxTok": mt, "HalfOn": "TRUE"}, timeout=3400)
         core.tlc_failure(res, tag)
         ver.add_mc(res, f"MC_C04 Rich={rich} MaxTok={mt}: every prefix of every string of head/string/float groups x 25 accessors; invariants TreeAgreement "
                         "CrossShape PrefixNeverOK PrefixEOI")
         core.replay_cases(ver, binp, res["out_path"], wd, tag)
+    # the same accessors in a build without the `half` (and `alloc`) feature: the float accessors have per-configuration arms there
+    none = core.cargo_build("vh", no_default=True, target_subdir="cfg-none")
+    tag = "mc_c04_nohalf"
+    res = core.run_tlc("MC_C04", "MC_C04.cfg", wd, tag=tag, consts={"Rich": "FALSE", "MaxTok": {"quick": "2", "thorough": "3"}[ver.tier], "HalfOn": "FALSE"}, timeout=3400)
+    core.tlc_failure(res, tag)
+    ver.add_mc(res, "MC_C04 HalfOn=FALSE: the expected outcomes for a build without `half` (f32 / f64 refuse a half float, everything else as before)")
+    core.replay_cases(ver, none, res["out_path"], wd, tag)
     core.validate_traces(ver, binp, "c04", "Trace_C04", wd, gen_args=["6000"])
     # the ~110 target types: re-framed encodings of their values (the typed events shared with C01, conjunct "alt"), the encoding of every
     # value decoded as every other type (an error, or the same data item: "cross"), strict prefixes decoded as the type itself ("prefix")
